@@ -59,14 +59,19 @@ def reference_reading(text, env):
 
 def neg_quotient_left(t):
     """The one shape for which the unchanged printer emits text that only the documented grammar reads
-    correctly: a negation of a quotient standing as the LEFT operand of * or /."""
+    correctly: a negation of a multiplicative chain that contains a division, standing as the LEFT operand
+    of * or / (without the negation the printer parenthesises such a left operand)."""
     if t is None:
         return False
+    def chain_has_div(c):
+        if c is None:
+            return False
+        if kind(c) == "DivideExpression":
+            return True
+        return kind(c) == "MultiplyExpression" and (chain_has_div(c.left) or chain_has_div(c.right))
+
     if kind(t) in ("MultiplyExpression", "DivideExpression") and t.left is not None and kind(t.left) == "NegateExpression":
-        c = t.left.get_child()
-        while c is not None and kind(c) == "MultiplyExpression":
-            c = c.left
-        if c is not None and kind(c) == "DivideExpression":
+        if chain_has_div(t.left.get_child()):
             return True
     return neg_quotient_left(t.left) or neg_quotient_left(t.right)
 
@@ -141,6 +146,31 @@ def rewritten_forms(nshapes):
     return out
 
 
+def wrapped_forms(nshapes):
+    """Three-level forms with a sign / function / factorial between two operators (deeper than the node
+    bound of the plain enumeration): Op1(A, U(Op2(B, C))), Op1(U(Op2(B, C)), A), U(Op1(A, Op2(B, C))), U(Op1(Op2(B, C), A))."""
+    sh = SHAPES[:nshapes]
+    out = []
+    for u in ("NegateExpression", "SgnExpression"):
+        for o1 in OPS2:
+            for o2 in OPS2:
+                for a in sh:
+                    for b in sh:
+                        for c in sh:
+                            inner = (o2, b, c)
+                            out.append((o1, a, (u, inner)))
+                            out.append((o1, (u, inner), a))
+                            out.append((u, (o1, a, inner)))
+                            out.append((u, (o1, inner, a)))
+    # factorial of a literal next to / below operators and signs
+    for o1 in OPS2:
+        for a in sh:
+            for lit in (("c", 0), ("c", 3)):
+                f = ("FactorialExpression", lit)
+                out += [(o1, f, a), (o1, a, f), ("NegateExpression", (o1, f, a)), ("NegateExpression", (o1, a, f)), (o1, ("NegateExpression", f), a), (o1, a, ("NegateExpression", f))]
+    return out
+
+
 def work_rewritten(chunk):
     from rules_tierb import RULES, make_rule
     from treelib import nodes_inorder
@@ -199,12 +229,19 @@ def main():
         for n, f in pool.imap_unordered(work_rewritten, [forms[i : i + size] for i in range(0, len(forms), size)]):
             rewritten += n
             fails += f
+    wforms = wrapped_forms(nshapes)
+    size = max(1, len(wforms) // 128)
+    wrapped = 0
+    with mp.get_context("fork").Pool(16) as pool:
+        for n, f in pool.imap_unordered(work, [wforms[i : i + size] for i in range(0, len(wforms), size)]):
+            wrapped += n
+            fails += f
     seen = {}
     for f in fails:
         key = (f["clause"], f["detail"].split(" (tree")[0][:40])
         seen.setdefault(key, f)
         seen[key]["count"] = seen[key].get("count", 0) + 1
-    print(json.dumps({"trees": total, "rewritten_forms": len(forms), "rewritten_results": rewritten, "operand_shapes": nshapes, "max_nodes": maxn, "max_equation_side_nodes": maxside, "leaves": [str(x) for x in LEAVES], "failures": list(seen.values())[:80], "n_failures": len(fails)}))
+    print(json.dumps({"trees": total, "rewritten_forms": len(forms), "rewritten_results": rewritten, "wrapped_forms": wrapped, "operand_shapes": nshapes, "max_nodes": maxn, "max_equation_side_nodes": maxside, "leaves": [str(x) for x in LEAVES], "failures": list(seen.values())[:80], "n_failures": len(fails)}))
     sys.exit(1 if fails else 0)
 
 
